@@ -94,9 +94,76 @@ def _build(fx, bld, v):
     g['add_finder_patterns'](m, n, n)
     g['add_alignment_patterns'](m, n, n)
     stage1 = m.grid()
-    g['add_format_info'](m, rv, '<error>', '<mask>')
-    g['add_version_info'](m, rv)
-    return stage1, m.grid(), vt.used
+    try:
+        g['add_format_info'](m, rv, '<error>', '<mask>')
+        g['add_version_info'](m, rv)
+        return stage1, m.grid(), vt.used
+    except Unknown as u:
+        if 'symbolic' not in str(u):
+            raise
+    # The writers do something with the word that the symbolic word does not model (formatting it, masking several bits at
+    # once, ...).  Their domain is finite and small: the 32 format words of the symbol kind and the one version word of the
+    # version.  They are interpreted once per word; a cell is format bit k when it equals bit k of every word, constant when
+    # it is the same for every word.
+    words = [iso.format_word(d) if v >= 1 else iso.format_word_micro(d) for d in range(32)]
+    vwords = [iso.golay18_6(x) for x in range(7, 41)]
+    lay = iso.layout(v)
+    grids = []
+    used = None
+    for w in words:
+        vt2 = _ConcreteTable(vwords)
+        genv2 = bld.with_consts(VERSION_INFO=vt2)
+        genv2['calc_format_info'] = lambda *a, _w=w, **k: (calls.append((a, k)), _w)[1]
+        g2 = {k: (FuncVal(val.node, genv2, bld.interp) if isinstance(val, FuncVal) else val) for k, val in genv2.items()}
+        for k, val in g2.items():
+            if isinstance(val, FuncVal):
+                val.genv = g2
+        m2 = reg.Matrix([reg.Row(list(r)) for r in stage1])
+        g2['add_format_info'](m2, rv, '<error>', '<mask>')
+        g2['add_version_info'](m2, rv)
+        grids.append(m2.grid())
+        if used is None:
+            used = vt2.used
+        elif used != vt2.used:
+            raise Unknown('the version word consulted depends on the format word')
+    del calls[1:]
+    final = [list(r) for r in grids[0]]
+    for r in range(n):
+        for c in range(n):
+            vals = [gr[r][c] for gr in grids]
+            exp = lay.get((r, c))
+            if exp is not None and exp[0] == 'format':
+                k = exp[1][2]
+                if all(val == (w >> k) & 1 for val, w in zip(vals, words)):
+                    final[r][c] = reg.Bit('F', k)
+                    continue
+                ks = [k2 for k2 in range(15) if all(val == (w >> k2) & 1 for val, w in zip(vals, words))]
+                final[r][c] = reg.Bit('F', ks[0]) if len(ks) == 1 else f'{vals[0]} for format word {words[0]:#06x}'
+            elif exp is not None and exp[0] == 'version' and used and len(set(map(repr, vals))) == 1 and len(used) == 1 and 0 <= used[0] < 34:
+                k = exp[1][2]
+                w = vwords[used[0]]
+                ks = [k2 for k2 in range(18) if vals[0] == (w >> k2) & 1]
+                final[r][c] = reg.Bit(('V', used[0]), k) if k in ks else f'{vals[0]} for version word {w:#07x}'
+            elif len(set(map(repr, vals))) != 1:
+                ks = [k2 for k2 in range(15) if all(val == (w >> k2) & 1 for val, w in zip(vals, words))]
+                final[r][c] = reg.Bit('F', ks[0]) if len(ks) == 1 else 'varies with the format word'
+    return stage1, final, used
+
+
+class _ConcreteTable:
+    """VERSION_INFO with its real (ISO) words; remembers the index used."""
+
+    def __init__(self, words):
+        self.words, self.used = words, []
+
+    def __getitem__(self, idx):
+        if not isinstance(idx, int):
+            raise Unknown('VERSION_INFO indexed by a non-constant')
+        self.used.append(idx)
+        return self.words[idx]
+
+    def __len__(self):
+        return len(self.words)
 
 
 def _describe(val):
